@@ -31,7 +31,7 @@ CHECKS = {
 # family configuration: exhaustive config, generator config, scenario counts per tier
 FAMILY = {
     "C01": dict(mc="MC_Ledger", gen="MC_GenLedger", quick=240, thorough=2500, drivers=["secret", "configmap", "memory"],
-                sweep=(3, 40)),
+                sweep=(3, 40), extra_gen=["MC_GenLedgerLong.cfg"], gen_depth=1200),
     "C02": dict(mc="MC_Cluster", gen="MC_GenCluster", quick=260, thorough=2500, drivers=["secret", "memory", "configmap"]),
     "C03": dict(mc="MC_Fault", gen="MC_GenFault", quick=200, thorough=2000, drivers=["secret", "configmap", "memory"],
                 sweep=(6, 60)),
@@ -355,7 +355,8 @@ def run(pid, tier, seed, replay=None):
     gens = [fam["gen"] + ".cfg"] + list(fam.get("extra_gen", []))
     raws = []
     for gi, gcfg in enumerate(gens):
-        r, gout = vlib.generate(d, fam["gen"] + ".tla", gcfg, max(10, n // len(gens)), 400, seed + 1000 * gi,
+        r, gout = vlib.generate(d, fam["gen"] + ".tla", gcfg, max(10, n // len(gens) if gi == 0 else n // (3 * len(gens))),
+                                fam.get("gen_depth", 400), seed + 1000 * gi,
                                 timeout=900 if tier == "quick" else 3600)
         raws += r
     if len(raws) < 10:
@@ -480,7 +481,8 @@ def run(pid, tier, seed, replay=None):
         os.replace(race["report"], rp)
         print("VIOLATION property=%s replay=%s check=race-detector races=%d panics=%d" % (pid, rp, race["races"], race["panics"]))
         nviol += 1
-    vlib.write_evidence(pid, tier, seed, "model_checking", cov, time.time() - t0, nviol, assumptions)
+    vlib.write_evidence(pid, tier, seed, "fault_enumeration" if pid == "C03" else "model_checking", cov,
+                        time.time() - t0, nviol, assumptions)
     if nviol:
         return 1
     if planned and hit == 0:
